@@ -204,6 +204,8 @@ func classify(err error) string {
 		return "err:nodst"
 	case errors.Is(err, processor.ErrProcessorRunning):
 		return "err:running"
+	case errors.Is(err, connector.ErrConnectorRunning):
+		return "err:connrunning"
 	case strings.Contains(m, "could not fetch connector"):
 		return "err:connector"
 	case strings.Contains(m, "could not fetch processor"):
